@@ -82,8 +82,16 @@ Fixpoint spec_mids (fs : fsys) (i : init_args) (done rest : list op) (mids : lis
   | _, _ => true
   end.
 
+(** A script that raised is judged as the script up to and including the call
+    that raised. *)
+Definition ops_run (c : case) : list op :=
+  match c_obs c with
+  | Err _ => firstn (S (List.length (c_mids c))) (c_ops c)
+  | Ok _ => c_ops c
+  end.
+
 Definition spec (c : case) : bool :=
-  spec_ok (c_fs c) (c_init c) (c_ops c) "INVOKE_" (c_obs c) &&
+  spec_ok (c_fs c) (c_init c) (ops_run c) "INVOKE_" (c_obs c) &&
   spec_mids (c_fs c) (c_init c) [] (c_ops c) (c_mids c).
 
 (** Inside the quantifier of the property (type-consistent levels, a load script). *)
